@@ -22,6 +22,18 @@ def _init_worker():
         sys.path.insert(0, HERE)
     import atexit
     atexit.register(lambda: shutil.rmtree(_tmpdir, ignore_errors=True))
+    if os.environ.get("VERIF_COVERAGE"):
+        # analysis mode (tools/impl_coverage.sh): which lines of /repo/lnn do the streams of this check reach?
+        import coverage
+        import multiprocessing.util as mpu
+        cov = coverage.Coverage(data_file=os.path.join(os.environ["VERIF_COVERAGE"], "cov"), data_suffix=True,
+                                include=["/repo/lnn/*"], config_file=False)
+        cov.start()
+
+        def _save():
+            cov.stop()
+            cov.save()
+        mpu.Finalize(None, _save, exitpriority=10)
     import impl
     impl.lnn()
 
@@ -42,6 +54,9 @@ def run_cases(modname, fname, cases, jobs=None, chunksize=4):
     ctx = mp.get_context("fork")
     with ctx.Pool(jobs, initializer=_init_worker) as pool:
         res = pool.map(_call, [(modname, fname, c) for c in cases], chunksize=chunksize)
+        if os.environ.get("VERIF_COVERAGE"):
+            pool.close()        # let the workers exit normally so that their coverage data is written
+            pool.join()
     # workers are killed by Pool.__exit__ without running atexit: sweep their temp dirs (only this process' workers:
     # checks of other properties may be running at the same time)
     for d in os.listdir(tempfile.gettempdir()):
